@@ -111,7 +111,8 @@ def worker(args):
 
 def contract_data(c):
     return {"params": c.params, "globals": c.globals, "requires": c.requires, "returns": c.returns, "ensures": c.ensures,
-            "raises": c.raises, "modifies": c.modifies, "assigns": c.assigns, "let": c.lets, "post_let": c.post_lets}
+            "raises": c.raises, "modifies": c.modifies, "assigns": c.assigns, "let": c.lets, "post_let": c.post_lets,
+            "bind": c.bind, "bind_kwargs": c.bind_kwargs, "bind_varargs": c.bind_varargs}
 
 
 def cvc5_check(smt2, timeout_s):
